@@ -568,6 +568,18 @@ def no_hash_order(tree, g, label):
             it = n.iter
         if it is not None and _is_set_expr(it):
             problems.append(f"line {it.lineno}: iteration over a set expression")
+    # a set expression handed to something that takes its elements in order: list(set(x)), tuple(...), ''.join(...), [*set(x)]
+    for n in ast.walk(tree):
+        if not _is_set_expr(n):
+            continue
+        par = parents.get(n)
+        if isinstance(par, ast.Starred):
+            problems.append(f"line {n.lineno}: a set expression is unpacked in order")
+        elif isinstance(par, ast.Call) and n in par.args:
+            fname = par.func.id if isinstance(par.func, ast.Name) else getattr(par.func, "attr", None)
+            if fname not in ("len", "sorted", "bool", "any", "all", "sum", "min", "max", "frozenset", "set", "isinstance") \
+                    and fname not in SET_OK_METHODS:
+                problems.append(f"line {n.lineno}: a set expression is passed to {fname}(): its iteration order would depend on the hash seed")
     # names / attributes bound to sets
     setvars = set()
     for n in ast.walk(tree):
